@@ -64,7 +64,7 @@ func main() {
 		m.Safety = *mode == "safety"
 		var vcs []*VC
 		for _, fc := range eng.db.order {
-			if fc.Kind != "func" || !strings.Contains(fc.Key, os.Args[2]) {
+			if fc.Kind != "func" || fc.Trusted || !strings.Contains(fc.Key, os.Args[2]) {
 				continue
 			}
 			vc := eng.verifyFunction(fc, m)
